@@ -511,4 +511,6 @@ class CustomFloat(Custom):
 
 
 def ops():
+    import common
+    common.foreign_configurations()
     return [Round(), Custom(), CustomFloat()]
